@@ -190,6 +190,9 @@ class Cfg:
             out[be[1]] |= self.natural_loop(be)
         return dict(out)
 
+    def dominated_by(self, h):
+        return {b for b in self.reach if self.dominates(h, b)}
+
     def in_loop(self, b):
         return any(b in body for body in self.loops().values())
 
